@@ -17,8 +17,8 @@ Definition post_loop (c : cmd) (st1 : ps) : res ps :=
 
 (** the occurrence groups the invocation gives to argument [i], computed from the invocation alone
     (C07's abstract fold: Append collects, Set keeps the last, Count counts, overrides remove) *)
-Definition denote_arg (c : cmd) (i : id) (its : list item) : option groups :=
-  fold_left (step_abs c i) (occs c 1 its) None.
+Definition denote_os (c : cmd) (i : id) (os : list occ) : option groups := fold_left (step_abs c i) os None.
+Definition denote_arg (c : cmd) (i : id) (its : list item) : option groups := denote_os c i (occs c 1 its).
 
 Section Top.
 Variable c : cmd.
@@ -63,18 +63,25 @@ Proof.
 Qed.
 
 (** the flushed command-line state holds, per argument, the invocation's occurrence groups *)
+Definition args_of (os : list occ) : Prop := Forall (fun o => In (o_arg o) (c_args c)) os.
+
+Theorem react_all_os_denote os st1 a : args_of os -> In a (c_args c) ->
+  react_all c os ps_new = ROk st1 ->
+  groups_of (a_id a) (mt st1) = denote_os c (a_id a) os /\ mt_pending (mt st1) = None.
+Proof.
+  intros Hos Ha H. pose proof (conv_app c Hconv) as HA.
+  assert (Hc : Forall (no_group_clash c (a_id a)) os).
+  { eapply Forall_impl; [|exact Hos]. intros o Ho. split.
+    - apply (assert_app_group_ids c (o_arg o) HA Ho).
+    - apply (assert_app_group_ids c a HA Ha). }
+  destruct (react_all_denote c (a_id a) os ps_new st1 wf_m_new eq_refl Hc H) as [R [_ P]].
+  split; [exact R|exact P].
+Qed.
+
 Theorem react_all_occs_denote its st1 a : In a (c_args c) ->
   react_all c (occs c 1 its) ps_new = ROk st1 ->
   groups_of (a_id a) (mt st1) = denote_arg c (a_id a) its /\ mt_pending (mt st1) = None.
-Proof.
-  intros Ha H. pose proof (conv_app c Hconv) as HA.
-  assert (Hc : Forall (no_group_clash c (a_id a)) (occs c 1 its)).
-  { eapply Forall_impl; [|apply (occs_args its 1)]. intros o Ho. split.
-    - apply (assert_app_group_ids c (o_arg o) HA Ho).
-    - apply (assert_app_group_ids c a HA Ha). }
-  destruct (react_all_denote c (a_id a) (occs c 1 its) ps_new st1 wf_m_new eq_refl Hc H) as [R [_ P]].
-  split; [exact R|exact P].
-Qed.
+Proof. apply react_all_os_denote. apply (occs_args its 1). Qed.
 
 Lemma post_loop_ok st1 st : post_loop c st1 = ROk st ->
   exists st2, add_env c st1 = ROk st2 /\ add_defaults c st2 = ROk st.
@@ -94,18 +101,18 @@ Qed.
 
 (** core of conservation: [st1'] carries the flushed command-line entries (and possibly a
     subcommand), [st] is what the env/default/validation phases make of it *)
-Lemma conservation_core its st1 st1' st :
-  react_all c (occs c 1 its) ps_new = ROk st1 ->
+Lemma conservation_core_os os st1 st1' st : args_of os ->
+  react_all c os ps_new = ROk st1 ->
   mt_args (mt st1') = mt_args (mt st1) -> mt_pending (mt st1') = None ->
   post_loop c st1' = ROk st ->
   forall a, In a (c_args c) ->
-    (forall gs, denote_arg c (a_id a) its = Some gs -> groups_of (a_id a) (mt st) = Some gs)
+    (forall gs, denote_os c (a_id a) os = Some gs -> groups_of (a_id a) (mt st) = Some gs)
     /\ (forall e, fm_get (a_id a) (mt_args (mt st)) = Some e -> m_source e = Some SCmdLine ->
-          denote_arg c (a_id a) its = Some (m_raw e)).
+          denote_os c (a_id a) os = Some (m_raw e)).
 Proof.
-  intros E1 EA P1 H a Ha.
-  destruct (react_all_occs_denote its st1 a Ha E1) as [R _].
-  assert (R' : groups_of (a_id a) (mt st1') = denote_arg c (a_id a) its).
+  intros Hos E1 EA P1 H a Ha.
+  destruct (react_all_os_denote os st1 a Hos Ha E1) as [R _].
+  assert (R' : groups_of (a_id a) (mt st1') = denote_os c (a_id a) os).
   { rewrite <- R. unfold groups_of, get. rewrite EA. reflexivity. }
   clear R. rename R' into R.
   destruct (post_loop_ok st1' st H) as [st2 [E2 E3]].
@@ -124,6 +131,16 @@ Proof.
       * destruct (En _ _ Hng G1 G2) as [Sx _]. rewrite Sx in Se. discriminate.
     + pose proof (Dn _ _ G2 Ge) as Sx. rewrite Sx in Se. discriminate.
 Qed.
+
+Lemma conservation_core its st1 st1' st :
+  react_all c (occs c 1 its) ps_new = ROk st1 ->
+  mt_args (mt st1') = mt_args (mt st1) -> mt_pending (mt st1') = None ->
+  post_loop c st1' = ROk st ->
+  forall a, In a (c_args c) ->
+    (forall gs, denote_arg c (a_id a) its = Some gs -> groups_of (a_id a) (mt st) = Some gs)
+    /\ (forall e, fm_get (a_id a) (mt_args (mt st)) = Some e -> m_source e = Some SCmdLine ->
+          denote_arg c (a_id a) its = Some (m_raw e)).
+Proof. apply conservation_core_os. apply (occs_args its 1). Qed.
 
 (** CONSERVATION.  On every successful parse of a rendered invocation, for every argument of the
     command: (1) if the invocation gives it occurrence groups [gs], the matches report exactly [gs];
@@ -158,7 +175,7 @@ Theorem denote_append its a : no_overrides = true -> In a (c_args c) -> a_get_ac
   (0 < Actions.count_occ (a_id a) (occs c 1 its))%nat ->
   denote_arg c (a_id a) its = Some (occ_groups c (a_id a) (occs c 1 its)).
 Proof.
-  intros Hno Ha Eact Hn. unfold denote_arg.
+  intros Hno Ha Eact Hn. unfold denote_arg, denote_os.
   assert (Hall : Forall (fun o => (o_arg o = a /\ is_cmdline (o_src o) && overridden c a (a_id a) = false)
                                    \/ unrelated c (a_id a) o) (occs c 1 its)).
   { eapply Forall_impl; [|apply (occs_args its 1)]. intros o Ho.
